@@ -118,13 +118,12 @@ func (srv *Session) consumeSingleCommand(ctx context.Context, reader *buffer.Rea
 		return err
 	}
 
-	if srv.closing.Load() {
+	// NOTE: we increase the wait group by one in order to make sure that idle
+	// connections are not blocking a close.
+	if !srv.admit() {
 		return nil
 	}
 
-	// NOTE: we increase the wait group by one in order to make sure that idle
-	// connections are not blocking a close.
-	srv.wg.Add(1)
 	srv.logger.Debug("<- incoming command", slog.Int("length", length), slog.String("type", t.String()))
 	err = srv.handleCommand(ctx, conn, t, reader, writer)
 	srv.wg.Done()
